@@ -69,6 +69,10 @@ CONFIGS = {
     "trace256": dict(cmake=[], cflags=TRACE, via="define", san="trace"),
     "trace255": dict(cmake=["-DFP_PRIME=255"], cflags=TRACE, via="define", san="trace"),
     "trace381": dict(cmake=["-DFP_PRIME=381"], cflags=TRACE, via="define", san="trace"),
+    # other window widths of the (regular) recodings: the width is a documented build option in [2, 6]
+    "trace256w2": dict(cmake=["-DRLC_WIDTH=2"], cflags=TRACE, via="define", san="trace"),
+    "trace256w6": dict(cmake=["-DRLC_WIDTH=6"], cflags=TRACE, via="define", san="trace"),
+    "trace255w3": dict(cmake=["-DFP_PRIME=255", "-DRLC_WIDTH=3"], cflags=TRACE, via="define", san="trace"),
     "asan256ppb": dict(cmake=["-DPP_METHD=BASIC;OATEP"], cflags=SAN_GATE),      # non-lazy Miller-loop variants
     "asan256x": dict(cmake=["-DFPX_METHD=BASIC;BASIC;BASIC", "-DPP_METHD=BASIC;OATEP", "-DEP_METHD=BASIC;LWNAF;COMBS;INTER;SSWUM",
                             "-DEB_METHD=BASIC;LWNAF;COMBS;INTER", "-DFB_METHD=BASIC;QUICK;QUICK;QUICK;QUICK;QUICK;BASIC;SLIDE;QUICK"],
